@@ -103,60 +103,52 @@ def all_blocks_equivalent(in_text, out_bytes, seed):
     return None
 
 
-def task(spec):
-    summ = {"evals": 0, "keys": [], "probes": {}, "faults": {}, "sim_s": 0.0, "samples": [], "harness": 0, "inconclusive": 0}
+def run_case(op, choose_crash, choose_tampers, summ, oracle_seed, phases=("fidelity", "crash", "tamper")):
+    """One base Optimize(-log) run followed by the chosen follow-up ops.  `choose_crash(window)` returns a list of
+    crash ops settings [(event, kind, crash_seed, tmp_name)], `choose_tampers(log_text)` a list of (tampered text, operator).
+    Used by task() with seeded choices and by replay() with the explicit ones recorded in the replay file."""
     viols = []
-    op = base_op(spec)
-    i = spec["index"]
-    rc = stream(spec["seed"], i, "crash")
-    rt = stream(spec["seed"], i, "tamper")
-    st, res = C.run_child(op)
+    st, res = C.run_child({k: v for k, v in op.items() if not k.startswith("crash")})
     if st != "ok" or res["exc"] is not None:
-        summ["inconclusive"] = 1
-        return dict(summ, violations=[])
+        summ["inconclusive"] += 1
+        return viols
     inp = op["argv"][0]
     logp, outp = C.log_path(op), C.output_path(op)
     log = res["files"].get(logp)
     out = res["files"].get(outp)
     if log is None or out is None:
-        summ["inconclusive"] = 1
-        return dict(summ, violations=[])
+        summ["inconclusive"] += 1
+        return viols
     summ["sim_s"] += res["sim_time"]
     nlog = len(json.loads(log.decode()))
     base_files = {inp: op["files"][inp]}
+    summ["probes"]["log_entries"] = summ["probes"].get("log_entries", 0) + nlog
     # (1) fidelity
-    rop = replay_op(op, dict(base_files, **{logp: log}))
-    st2, res2 = C.run_child(rop)
-    oc = replay_outcome(rop, st2, res2)
-    summ["evals"] += 1
-    if nlog:
-        summ["keys"].append(digest([op["files"], op["argv"], "fidelity"]))
-    if oc[0] != "output" or oc[1] != out:
-        why = oc[1] if oc[0] == "error" else "output differs"
-        cls = ["fidelity", "error" if oc[0].startswith("error") else "diff", op["desc"]["backend"]]
-        if oc[0].startswith("error") and res2 and res2.get("exc"):
-            cls.append(res2["exc"]["type"])
-        viols.append({"class": cls, "detail": "replay of the intact log: %s | argv %s" % (
-            str(why)[:200] + (" " + res2["exc"]["msg"][:200] if res2 and res2.get("exc") else ""), " ".join(op["argv"][1:])),
-            "replay": {"kind": "fidelity", "op": op}})
-    summ["probes"]["log_entries"] = nlog
+    if "fidelity" in phases:
+        rop = replay_op(op, dict(base_files, **{logp: log}))
+        st2, res2 = C.run_child(rop)
+        oc = replay_outcome(rop, st2, res2)
+        summ["evals"] += 1
+        if nlog:
+            summ["keys"].append(digest([op["files"], op["argv"], "fidelity"]))
+        if oc[0] != "output" or oc[1] != out:
+            why = oc[1] if oc[0] == "error" else "output differs"
+            cls = ["fidelity", "error" if oc[0].startswith("error") else "diff", op["desc"]["backend"]]
+            if oc[0].startswith("error") and res2 and res2.get("exc"):
+                cls.append(res2["exc"]["type"])
+            viols.append({"class": cls, "detail": "replay of the intact log: %s | argv %s" % (
+                str(why)[:200] + (" " + res2["exc"]["msg"][:200] if res2 and res2.get("exc") else ""), " ".join(op["argv"][1:])),
+                "replay": {"kind": "fidelity", "op": op}})
     # (2) crash points inside the write window
     ev = res["events"]
     s0 = next((s for s, k, key, _ in ev if k == "open_w" and key == logp), None)
     s1 = next((s for s, k, key, _ in ev if k == "close_w" and key == outp), None)
-    # crash runs re-execute the whole optimisation up to the crash point: only greedy bases (no solver calls) in the quick tier
-    if s0 is not None and s1 is not None and (op["desc"]["backend"] == "-greedy" or spec["tier"] == "thorough"):
-        window = list(range(s0, s1 + 2))
-        if spec["tier"] == "quick" or len(window) > 400:
-            pts = sorted(set([rc.choice([s0, s0 + 1]), rc.choice([s1, s1 + 1])] + [rc.choice(window) for _ in range(3)]))
-        else:
-            pts = window
-        for cp in pts:
-            kind = rc.choice(["kill", "powerloss"])
+    if "crash" in phases and s0 is not None and s1 is not None:
+        for cp, kind, cseed, tmpname in choose_crash(list(range(s0, s1 + 2))):
             cop = dict(op)
-            cop.update({"crash_at": cp, "crash_kind": kind, "crash_seed": rc.randrange(1 << 30)})
-            if rc.random() < 0.5:
-                cop["env"] = dict(op.get("env", {}), tmp_name="dead")
+            cop.update({"crash_at": cp, "crash_kind": kind, "crash_seed": cseed})
+            if tmpname:
+                cop["env"] = dict(op.get("env", {}), tmp_name=tmpname)
             stc, resc = C.run_child(cop)
             if stc != "ok" or not resc.get("crashed"):
                 summ["probes"]["crash_not_reached"] = summ["probes"].get("crash_not_reached", 0) + 1
@@ -166,7 +158,6 @@ def task(spec):
             slog = image.get(logp)
             state = "missing" if slog is None else "intact" if slog == log else "empty" if slog == b"" else "partial"
             summ["probes"]["survivor_log_" + state] = summ["probes"].get("survivor_log_" + state, 0) + 1
-            # Restart + Replay from whatever survived
             rfiles = dict(base_files)
             if slog is not None:
                 rfiles[logp] = slog
@@ -178,13 +169,14 @@ def task(spec):
             oc = replay_outcome(rop, st3, res3)
             summ["evals"] += 1
             summ["keys"].append(digest([op["files"], op["argv"], cp, kind]))
+            crp = {"kind": "crash", "op": op, "crash": [cp, kind, cseed, tmpname]}
             bad = None
             if oc[0] == "output":
                 if state == "intact":
                     if oc[1] != out:
                         bad = ("crash-replay-diff", "replay from the intact surviving log differs from the crash-free output")
                 else:
-                    d = all_blocks_equivalent(op["files"][inp], oc[1], spec["seed"] + cp)
+                    d = all_blocks_equivalent(op["files"][inp], oc[1], oracle_seed + cp)
                     if d is not None:
                         bad = ("crash-replay-wrong-code:" + d[0], "replay from a %s log emitted non-equivalent code: %s" % (state, d[1]))
             elif oc[0] == "error+output":
@@ -193,9 +185,7 @@ def task(spec):
                 bad = ("crash-replay-error", "replay from the intact surviving log failed: %s" % oc[1])
             if bad:
                 viols.append({"class": [bad[0], kind, state], "detail": "%s | crash at event %d (%s %s) | argv %s" % (
-                    bad[1], cp, resc["crashed"]["at_kind"], resc["crashed"]["at_key"], " ".join(op["argv"][1:])),
-                    "replay": {"kind": "crash", "op": cop}})
-            # Restart + Optimize again on the image
+                    bad[1], cp, resc["crashed"]["at_kind"], resc["crashed"]["at_key"], " ".join(op["argv"][1:])), "replay": crp})
             oop = dict(op)
             oop["files"] = rfiles
             st4, res4 = C.run_child(oop)
@@ -203,13 +193,11 @@ def task(spec):
             if st4 != "ok" or res4["exc"] is not None or res4["files"].get(outp) != out or res4["files"].get(logp) != log:
                 why = st4 if st4 != "ok" else (res4["exc"]["type"] if res4["exc"] else "output or log differs")
                 viols.append({"class": ["reoptimize-after-crash", kind, str(why)], "detail": "Optimize on the image left by a %s at event %d: %s" % (
-                    kind, cp, why), "replay": {"kind": "crash", "op": cop}})
+                    kind, cp, why), "replay": crp})
     # (3) tampering
-    if nlog:
-        foreign = []
-        for t in range(5 if spec["tier"] == "quick" else 12):
-            tl, opname = T.tamper_log(rt, log.decode(), foreign)
-            if tl.encode() == log:
+    if "tamper" in phases and nlog:
+        for t, (tl, opname) in enumerate(choose_tampers(log.decode())):
+            if tl.encode("latin-1") == log:
                 continue
             rop = replay_op(op, dict(base_files, **{logp: tl.encode("latin-1")}))
             st5, res5 = C.run_child(rop)
@@ -217,66 +205,57 @@ def task(spec):
             summ["evals"] += 1
             summ["faults"]["tamper_" + opname.split(":")[0]] = summ["faults"].get("tamper_" + opname.split(":")[0], 0) + 1
             summ["keys"].append(digest([op["files"], op["argv"], tl]))
+            trp = {"kind": "tamper", "op": op, "log": tl, "opname": opname, "seed": oracle_seed}
             if oc[0] == "output":
                 summ["probes"]["tampered_log_accepted"] = summ["probes"].get("tampered_log_accepted", 0) + 1
-                d = all_blocks_equivalent(op["files"][inp], oc[1], spec["seed"] * 7 + t)
+                d = all_blocks_equivalent(op["files"][inp], oc[1], oracle_seed)
                 if d is not None:
                     viols.append({"class": ["tamper-accepted", opname, d[0]], "detail": "tampered log (%s) accepted and non-equivalent code emitted: %s | argv %s" % (
-                        opname, d[1], " ".join(op["argv"][1:])), "replay": {"kind": "tamper", "op": op, "log": tl, "seed": spec["seed"] * 7 + t}})
+                        opname, d[1], " ".join(op["argv"][1:])), "replay": trp})
             elif oc[0] == "error+output":
-                viols.append({"class": ["tamper-error-with-output", opname], "detail": "replay raised but wrote an output file",
-                              "replay": {"kind": "tamper", "op": op, "log": tl, "seed": 0}})
+                viols.append({"class": ["tamper-error-with-output", opname], "detail": "replay raised but wrote an output file", "replay": trp})
             else:
                 summ["probes"]["tampered_log_rejected"] = summ["probes"].get("tampered_log_rejected", 0) + 1
     if not summ["samples"]:
         summ["samples"].append({"argv": op["argv"][1:], "log_entries": nlog})
+    return viols
+
+
+def task(spec):
+    summ = {"evals": 0, "keys": [], "probes": {}, "faults": {}, "sim_s": 0.0, "samples": [], "harness": 0, "inconclusive": 0}
+    op = base_op(spec)
+    i = spec["index"]
+    rc = stream(spec["seed"], i, "crash")
+    rt = stream(spec["seed"], i, "tamper")
+
+    def choose_crash(window):
+        # crash runs re-execute the whole optimisation up to the crash point: only greedy bases (no solver calls) in the quick tier
+        if not (op["desc"]["backend"] == "-greedy" or spec["tier"] == "thorough"):
+            return []
+        s0, s1 = window[0], window[-1] - 1
+        if spec["tier"] == "quick" or len(window) > 400:
+            pts = sorted(set([rc.choice([s0, s0 + 1]), rc.choice([s1, s1 + 1])] + [rc.choice(window) for _ in range(3)]))
+        else:
+            pts = window
+        return [(cp, rc.choice(["kill", "powerloss"]), rc.randrange(1 << 30), "dead" if rc.random() < 0.5 else None) for cp in pts]
+
+    def choose_tampers(log_text):
+        out = []
+        for _ in range(5 if spec["tier"] == "quick" else 12):
+            out.append(T.tamper_log(rt, log_text, []))
+        return out
+    viols = run_case(op, choose_crash, choose_tampers, summ, spec["seed"] * 7 + i)
     summ["violations"] = viols[:3]
     return summ
 
 
 def replay(rp):
+    summ = {"evals": 0, "keys": [], "probes": {}, "faults": {}, "sim_s": 0.0, "samples": [], "harness": 0, "inconclusive": 0}
     op = rp["op"]
-    inp = op["argv"][0]
-    logp, outp = C.log_path(op), C.output_path(op)
-    if rp["kind"] == "tamper":
-        rop = replay_op(op, {inp: op["files"][inp], logp: rp["log"].encode("latin-1")})
-        st, res = C.run_child(rop)
-        oc = replay_outcome(rop, st, res)
-        if oc[0] == "output":
-            d = all_blocks_equivalent(op["files"][inp], oc[1], rp["seed"])
-            if d is not None:
-                return {"class": ["tamper-accepted", "?", d[0]], "detail": d[1], "replay": rp}
-        return None
-    base = {k: v for k, v in op.items() if not k.startswith("crash")}
-    st, res = C.run_child(base)
-    if st != "ok":
-        return None
-    out, log = res["files"].get(outp), res["files"].get(logp)
     if rp["kind"] == "fidelity":
-        rop = replay_op(op, {inp: op["files"][inp], logp: log})
-        st2, res2 = C.run_child(rop)
-        oc = replay_outcome(rop, st2, res2)
-        if oc[0] != "output" or oc[1] != out:
-            return {"class": ["fidelity", "error" if oc[0].startswith("error") else "diff"], "detail": str(oc[1])[:200], "replay": rp}
-        return None
-    stc, resc = C.run_child(op)
-    if stc != "ok" or not resc.get("crashed"):
-        return None
-    rfiles = {inp: op["files"][inp]}
-    rfiles.update({p: d for p, d in resc["files"].items() if p.startswith("/sim/tmp/") or p.startswith("/sim/cwd/")})
-    rop = replay_op(base, rfiles)
-    st3, res3 = C.run_child(rop)
-    oc = replay_outcome(rop, st3, res3)
-    slog = resc["files"].get(logp)
-    if oc[0] == "output" and slog == log and oc[1] != out:
-        return {"class": ["crash-replay-diff"], "detail": "", "replay": rp}
-    if oc[0] == "output" and slog != log:
-        d = all_blocks_equivalent(op["files"][inp], oc[1], 1)
-        if d:
-            return {"class": ["crash-replay-wrong-code:" + d[0]], "detail": d[1], "replay": rp}
-    oop = dict(base)
-    oop["files"] = rfiles
-    st4, res4 = C.run_child(oop)
-    if st4 != "ok" or res4["exc"] is not None or res4["files"].get(outp) != out:
-        return {"class": ["reoptimize-after-crash"], "detail": "", "replay": rp}
-    return None
+        v = run_case(op, lambda w: [], lambda l: [], summ, 0, phases=("fidelity",))
+    elif rp["kind"] == "crash":
+        v = run_case(op, lambda w: [tuple(rp["crash"])], lambda l: [], summ, rp.get("seed", 0), phases=("crash",))
+    else:
+        v = run_case(op, lambda w: [], lambda l: [(rp["log"], rp.get("opname", "?"))], summ, rp.get("seed", 0), phases=("tamper",))
+    return v[0] if v else None
